@@ -216,7 +216,7 @@ def loader_unit(which):
       # a load may only be aborted by an unreadable file, an unparsable retention (SystemExit),
       # an uncompilable pattern or (aggregation) an out-of-range xFilesFactor / unknown method
       allowed = ('SystemExit', 're.error', 'CarbonConfigException', 'AssertionError')
-      ctx.check('C19/%s/aborts_only_for_documented_reasons' % lname, z3.BoolVal(raised.cls_name in allowed))
+      ctx.check('aux/%s/aborts_only_for_documented_reasons' % lname, z3.BoolVal(raised.cls_name in allowed))
       return
     ctx.cover('%s/returns' % lname)
     ok = isinstance(r, SymSeq)
@@ -312,10 +312,12 @@ def u_parse_retention(ctx, index):
   p_unit = z3.And(z3.Not(p_plain), RE_MATCH(P), known(GROUP2(P)))
   q_unit = z3.And(z3.Not(q_plain), RE_MATCH(Q), known(GROUP2(Q)))
   wellformed = z3.And(NPARTS(STRIP(s)) == 2, z3.Or(p_plain, p_unit), z3.Or(q_plain, q_unit))
-  ctx.check('C19/parseRetentionDef/accepts_iff_wellformed', z3.BoolVal(raised is None) == wellformed)
+  # well-formed retention strings must be read (C19); what is done with ill-formed ones is informative only
+  ctx.check('C19/parseRetentionDef/wellformed_is_accepted', z3.Implies(wellformed, z3.BoolVal(raised is None)))
+  ctx.check('aux/parseRetentionDef/illformed_is_rejected', z3.Implies(z3.Not(wellformed), z3.BoolVal(raised is not None)))
   if raised is not None:
     ctx.cover('parseRetentionDef/rejects')
-    ctx.check('C19/parseRetentionDef/bad_input_is_ValueError', z3.BoolVal(raised.cls_name == 'ValueError'))
+    ctx.check('aux/parseRetentionDef/bad_input_is_ValueError', z3.BoolVal(raised.cls_name == 'ValueError'))
     return
   ctx.cover('parseRetentionDef/accepts')
   ok = isinstance(r, tuple) and len(r) == 2
